@@ -390,7 +390,7 @@ example : evalOk exEnv (.un .abs (.leaf 0)) = true := by decide +kernel
 /-! ## well-formed inputs are accepted: totality on typed trees
 
 `HasTy env M e t` (`Lemmas/C03o.lean`) is a static typing judgment: it predicts component
-count, labels, mapping and unit of the value of `e` from the leaves alone.  `Good M f` =
+count, labels, mapping, unit and dtype kind of the value of `e` from the leaves alone.  `Good M f` =
 array / mask of the mesh's shape + labels and mapping in constructor state + `f.mesh = M`;
 `MeshOk M` = the region names all axes and `M.allclose(M)` holds. -/
 
@@ -429,22 +429,22 @@ fields with equal counts or a scalar field, with numbers, constant vectors of ma
 length and per-cell arrays on either side (plain Python or NumPy), `**` with a number
 exponent, `dot`, `cross`, `<<` and `angle` between fields, binary ufunc calls — **is accepted**; the result is a
 well-formed field **on `M`** with labels / mapping in constructor state, it carries exactly
-the statically predicted component count, labels, mapping and unit, every cell holds the
+the statically predicted component count, labels, mapping, unit and dtype kind, every cell holds the
 same expression evaluated on that cell's component lists, and its validity is the AND of
 the operands' masks. -/
 theorem typed_total (env : Env) (M : Mesh) (hM : MeshOk M) (hgood : ∀ f ∈ env.fields, Good M f)
     (e : Expr) (t : Ty) (h : HasTy env M e t) :
     ∃ g, evalF env e = .ok (.fld g) ∧ g.mesh = M ∧ CFwf g ∧ MetaStable g ∧
-      g.nvdim = t.nv ∧ g.vdims = t.vdims ∧ g.vmap = t.vmap ∧ g.unit = t.unit ∧
+      g.nvdim = t.nv ∧ g.vdims = t.vdims ∧ g.vmap = t.vmap ∧ g.unit = t.unit ∧ g.kind = t.kind ∧
       ∀ i, inRange M.n i = true →
         cellOf g.data i g.nvdim = evalCell env e i ∧ g.valid.get i = validCell env e i := by
-  obtain ⟨g, hg, ⟨hwf, hst, hm⟩, h1, h2, h3, h4⟩ := hasTy_sound env M hM hgood e t h
+  obtain ⟨g, hg, ⟨hwf, hst, hm⟩, h1, h2, h3, h4, h5⟩ := hasTy_sound env M hM hgood e t h
   have hwf' : ∀ f ∈ env.fields, CFwf f ∧ f.mesh.n = M.n :=
     fun f hf => ⟨(hgood f hf).1, by rw [(hgood f hf).2.2]⟩
   have hok := hasTy_liftOk env M M.n e t h
   obtain ⟨_, _, hc⟩ := eval_cellwise env M.n hwf' e hok g hg
   have hv := eval_valid env M.n hwf' e hok g hg
-  exact ⟨g, hg, hm, hwf, hst, h1, h2, h3, h4, fun i hi => ⟨hc i hi, hv i hi⟩⟩
+  exact ⟨g, hg, hm, hwf, hst, h1, h2, h3, h4, h5, fun i hi => ⟨hc i hi, hv i hi⟩⟩
 
 /-- **every field a constructor call returns has labels and mapping in constructor state**
 (`MetaStable`): handing them to the constructor again changes nothing.  (Mesh whose region
@@ -505,10 +505,11 @@ example : RawFits exA.mesh.n exA.nvdim exVec := Or.inl rfl
 
 /-- **all 14 unary operations are accepted**; component count, labels and mapping are kept;
 the unit is kept by `+f`, `abs(f)`, `real`, `imag`, `conjugate` and dropped by `-f`,
-`f.abs`, `f.phase` and the unary ufuncs. -/
+`f.abs`, `f.phase` and the unary ufuncs; the dtype kind follows `unKind` (`+f` is `f`; `abs`,
+`real`, `imag` give a real kind; `phase` float; everything is stored as at least float). -/
 theorem unary_accepts_meta (env : Env) (u : UnOp) (M : Mesh) (hM : MeshOk M) (f : CF) (hf : Good M f) :
     ∃ g, applyUn env u f = .ok g ∧ Good M g ∧ g.nvdim = f.nvdim ∧ g.vdims = f.vdims ∧ g.vmap = f.vmap ∧
-      g.unit = (if unKeepsUnit u then f.unit else none) :=
+      g.unit = (if unKeepsUnit u then f.unit else none) ∧ g.kind = unKind u f.kind :=
   applyUn_accepts env u M hM f hf
 
 /-- **`dot`**: two fields with equal counts, or a field with a constant vector / per-cell
@@ -577,9 +578,10 @@ for two fields with equal component counts; both are unlabelled scalar fields wi
 mapping, the angle has unit `rad`. -/
 theorem norm_angle_meta (sq acos : Rat → Rat) (M : Mesh) (hM : MeshOk M) (f o : CF) (hf : Good M f) (ho : Good M o)
     (hn : f.nvdim = o.nvdim) :
-    (∃ g, normOp sq f = .ok g ∧ Good M g ∧ g.nvdim = 1 ∧ g.vdims = none ∧ g.vmap = [] ∧ g.unit = f.unit) ∧
+    (∃ g, normOp sq f = .ok g ∧ Good M g ∧ g.nvdim = 1 ∧ g.vdims = none ∧ g.vmap = [] ∧ g.unit = f.unit ∧
+      g.kind = f.kind.realOf.ctor) ∧
     (∃ g, angleOp sq acos f (.fld o) = .ok g ∧ Good M g ∧ g.nvdim = 1 ∧ g.vdims = none ∧ g.vmap = [] ∧
-      g.unit = some "rad") :=
+      g.unit = some "rad" ∧ g.kind = .float) :=
   ⟨normOp_accepts sq M f hf, angleOp_fld_accepts sq acos M hM f o hf ho hn⟩
 
 /-- **`<<` between two fields on one mesh is always accepted** (any component counts `k`,
@@ -591,7 +593,8 @@ theorem shl_meta (M : Mesh) (hM : MeshOk M) (f o : CF) (hf : Good M f) (ho : Goo
     ∃ g, shlFF f o = .ok g ∧ Good M g ∧ g.nvdim = f.nvdim + o.nvdim ∧ g.unit = none ∧
       g.vdims = shlLabels f.vdims o.vdims (f.nvdim + o.nvdim) ∧
       (if (dictUpdate f.vmap o.vmap).length = f.nvdim + o.nvdim then g.vmap = dictUpdate f.vmap o.vmap
-       else vmapSet (f.nvdim + o.nvdim) M.region.ndim g.vdims M.region.dims none = .ok g.vmap) :=
+       else vmapSet (f.nvdim + o.nvdim) M.region.ndim g.vdims M.region.dims none = .ok g.vmap) ∧
+      g.kind = (f.kind.join o.kind).ctor :=
   shlFF_accepts M hM f o hf ho
 
 /-- unique labels are kept by `<<`, and full mappings over disjoint labels are concatenated -/
@@ -635,23 +638,23 @@ example : Good exMesh exA ∧ exA.vdims = some ["a", "b"] :=
 (`∘ ∈ {+, *}`; partial: the cases the code satisfies): for well-typed subexpressions `x`,
 `y` whose values are a scalar field and a vector field (either order), or carry the same
 labels and mapping, both orders are accepted and the two results have the same component
-count, labels, mapping and unit.  Missing for the full claim: operands with different
-labels and equal counts (D10, D51 — `comm_meta_fails`, `comm_meta_fails_scalar`). -/
+count, labels, mapping, unit and dtype kind.  Missing for the full claim: operands with
+different labels and equal counts (D10, D51 — `comm_meta_fails`, `comm_meta_fails_scalar`). -/
 theorem comm_meta_trees_partial (env : Env) (M : Mesh) (hM : MeshOk M) (hgood : ∀ f ∈ env.fields, Good M f)
     (b : BinOp) (hb : b = .add ∨ b = .mul) (x y : Expr) (tx ty : Ty)
     (hx : HasTy env M x tx) (hy : HasTy env M y ty) (d : Nat) (hd : bdim tx.nv ty.nv = some d)
     (hcase : (tx.nv = 1 ∧ 1 < ty.nv) ∨ (ty.nv = 1 ∧ 1 < tx.nv) ∨ (tx.vdims = ty.vdims ∧ tx.vmap = ty.vmap)) :
     ∃ g1 g2, evalF env (.bin b x y) = .ok (.fld g1) ∧ evalF env (.bin b y x) = .ok (.fld g2) ∧
-      g1.nvdim = g2.nvdim ∧ g1.vdims = g2.vdims ∧ g1.vmap = g2.vmap ∧ g1.unit = g2.unit := by
+      g1.nvdim = g2.nvdim ∧ g1.vdims = g2.vdims ∧ g1.vmap = g2.vmap ∧ g1.unit = g2.unit ∧ g1.kind = g2.kind := by
   obtain ⟨f, hf, hfg, f1, f2, f3, _⟩ := hasTy_sound env M hM hgood x tx hx
   obtain ⟨o, ho, hog, o1, o2, o3, _⟩ := hasTy_sound env M hM hgood y ty hy
   have hba : isArith b = true := by rcases hb with rfl | rfl <;> rfl
   have hd1 : bdim f.nvdim o.nvdim = some d := by rw [f1, o1]; exact hd
   have hd2 : bdim o.nvdim f.nvdim = some d := by rw [bdim_comm]; exact hd1
-  obtain ⟨g1, h1, _, n1, v1, m1, u1⟩ := applyBin_arith_ff env b hba M hM f o hfg hog d hd1
-  obtain ⟨g2, h2, _, n2, v2, m2, u2⟩ := applyBin_arith_ff env b hba M hM o f hog hfg d hd2
+  obtain ⟨g1, h1, _, n1, v1, m1, u1, k1⟩ := applyBin_arith_ff env b hba M hM f o hfg hog d hd1
+  obtain ⟨g2, h2, _, n2, v2, m2, u2, k2⟩ := applyBin_arith_ff env b hba M hM o f hog hfg d hd2
   refine ⟨g1, g2, by rw [evalF_bin env b x y _ _ hf ho, h1], by rw [evalF_bin env b y x _ _ ho hf, h2],
-    by rw [n1, n2], ?_, ?_, by rw [u1, u2]⟩
+    by rw [n1, n2], ?_, ?_, by rw [u1, u2], by rw [k1, k2, Kind.join_comm]⟩
   · rw [v1, v2]
     unfold metaSrc
     rw [f1, o1]
@@ -671,19 +674,56 @@ example : HasTy exEnv1 exMesh (.leaf 2) (tyOf exS) ∧ HasTy exEnv1 exMesh (.lea
     bdim (tyOf exS).nv (tyOf exA).nv = some 2 :=
   ⟨.leaf 2 exS rfl, .leaf 0 exA rfl, by decide⟩
 
+/-- **`x ∘ y` and `y ∘ x` are the same field** (`∘ ∈ {+, *}`; partial: the operand classes the
+code satisfies, no success hypothesis): for well-typed subtrees whose values are a scalar
+field and a vector field (either order) or carry the same labels and mapping, both orders
+are accepted and the two results have the same mesh, component count, labels, mapping, unit,
+dtype kind, the same values in every cell and the same validity.  Missing for the full claim: operands
+with different labels and equal counts (D10, D51). -/
+theorem comm_same_field_partial (env : Env) (M : Mesh) (hM : MeshOk M) (hgood : ∀ f ∈ env.fields, Good M f)
+    (b : BinOp) (hb : b = .add ∨ b = .mul) (x y : Expr) (tx ty : Ty)
+    (hx : HasTy env M x tx) (hy : HasTy env M y ty) (d : Nat) (hd : bdim tx.nv ty.nv = some d)
+    (hcase : (tx.nv = 1 ∧ 1 < ty.nv) ∨ (ty.nv = 1 ∧ 1 < tx.nv) ∨ (tx.vdims = ty.vdims ∧ tx.vmap = ty.vmap)) :
+    ∃ g1 g2, evalF env (.bin b x y) = .ok (.fld g1) ∧ evalF env (.bin b y x) = .ok (.fld g2) ∧
+      g1.mesh = M ∧ g2.mesh = M ∧ g1.nvdim = g2.nvdim ∧ g1.vdims = g2.vdims ∧ g1.vmap = g2.vmap ∧
+      g1.unit = g2.unit ∧ g1.kind = g2.kind ∧
+      ∀ i, inRange M.n i = true →
+        cellOf g1.data i g1.nvdim = cellOf g2.data i g2.nvdim ∧ g1.valid.get i = g2.valid.get i := by
+  obtain ⟨g1, g2, h1, h2, a1, a2, a3, a4, a5⟩ :=
+    comm_meta_trees_partial env M hM hgood b hb x y tx ty hx hy d hd hcase
+  have hba : isArith b = true := by rcases hb with rfl | rfl <;> rfl
+  obtain ⟨g1', h1', m1, _⟩ := typed_total env M hM hgood _ _ (HasTy.arithFF b x y tx ty d hba hx hy hd)
+  obtain ⟨g2', h2', m2, _⟩ := typed_total env M hM hgood _ _
+    (HasTy.arithFF b y x ty tx d hba hy hx (by rw [bdim_comm]; exact hd))
+  rw [h1] at h1'; injection h1' with h1'; injection h1' with h1'; subst h1'
+  rw [h2] at h2'; injection h2' with h2'; injection h2' with h2'; subst h2'
+  have hwf' : ∀ f ∈ env.fields, CFwf f ∧ f.mesh.n = M.n :=
+    fun f hf => ⟨(hgood f hf).1, by rw [(hgood f hf).2.2]⟩
+  exact ⟨g1, g2, h1, h2, m1, m2, a1, a2, a3, a4, a5,
+    comm_values env M.n hwf' b hb x y (hasTy_liftOk env M M.n x tx hx) (hasTy_liftOk env M M.n y ty hy) g1 g2 h1 h2⟩
+
 /-- **`x ∘ c` and `c ∘ x` carry the same metadata** (`∘ ∈ {+, *}`) for a well-typed subtree `x`
 and a number, a constant vector of matching length or a per-cell array `c` — plain Python
 (reflected method) or NumPy (`__array_ufunc__`): both orders are accepted and give the same
-component count, labels, mapping and unit; with `comm_values` the same field. -/
+component count, labels, mapping, unit, dtype kind, values in every cell and validity: the
+same field on the same mesh. -/
 theorem comm_meta_raw (env : Env) (M : Mesh) (hM : MeshOk M) (hgood : ∀ f ∈ env.fields, Good M f)
     (b : BinOp) (hb : b = .add ∨ b = .mul) (x : Expr) (t : Ty) (hx : HasTy env M x t) (od : Opd)
     (hfit : RawFits M.n t.nv od) :
     ∃ g1 g2, evalF env (.bin b x (.opd od)) = .ok (.fld g1) ∧ evalF env (.bin b (.opd od) x) = .ok (.fld g2) ∧
-      g1.nvdim = g2.nvdim ∧ g1.vdims = g2.vdims ∧ g1.vmap = g2.vmap ∧ g1.unit = g2.unit := by
+      g1.mesh = M ∧ g2.mesh = M ∧ g1.nvdim = g2.nvdim ∧ g1.vdims = g2.vdims ∧ g1.vmap = g2.vmap ∧
+      g1.unit = g2.unit ∧ g1.kind = g2.kind ∧
+      ∀ i, inRange M.n i = true →
+        cellOf g1.data i g1.nvdim = cellOf g2.data i g2.nvdim ∧ g1.valid.get i = g2.valid.get i := by
   have hba : isArith b = true := by rcases hb with rfl | rfl <;> rfl
-  obtain ⟨g1, h1, _, a1, a2, a3, a4⟩ := hasTy_sound env M hM hgood _ _ (HasTy.arithFR b x od t (Or.inl hba) hx hfit)
-  obtain ⟨g2, h2, _, b1, b2, b3, b4⟩ := hasTy_sound env M hM hgood _ _ (HasTy.arithRF b od x t hba hx hfit)
-  exact ⟨g1, g2, h1, h2, by rw [a1, b1], by rw [a2, b2], by rw [a3, b3], by rw [a4, b4]⟩
+  obtain ⟨g1, h1, ⟨_, _, m1⟩, a1, a2, a3, a4, a5⟩ :=
+    hasTy_sound env M hM hgood _ _ (HasTy.arithFR b x od t (Or.inl hba) hx hfit)
+  obtain ⟨g2, h2, ⟨_, _, m2⟩, b1, b2, b3, b4, b5⟩ :=
+    hasTy_sound env M hM hgood _ _ (HasTy.arithRF b od x t hba hx hfit)
+  have hwf' : ∀ f ∈ env.fields, CFwf f ∧ f.mesh.n = M.n :=
+    fun f hf => ⟨(hgood f hf).1, by rw [(hgood f hf).2.2]⟩
+  exact ⟨g1, g2, h1, h2, m1, m2, by rw [a1, b1], by rw [a2, b2], by rw [a3, b3], by rw [a4, b4], by rw [a5, b5],
+    comm_values env M.n hwf' b hb x (.opd od) (hasTy_liftOk env M M.n x t hx) trivial g1 g2 h1 h2⟩
 
 example : RawFits exMesh.n (tyOf exA).nv exNpVec := Or.inl rfl
 
